@@ -73,6 +73,7 @@ def run(ctx):
     ds.empty_batch_noop(ctx, 'C04')
     walk_rules(ctx)
     c01_set_child(ctx)
+    c01.tree_effects_unconditional(ctx, 'C04')
     ds.join_rules(ctx, 'C04', want_writer_rule=False)
 
 
